@@ -88,7 +88,7 @@ def run(run):
                 add(e, comp, cfg)
                 run.case(("exact", kname, shape, cplx), nontrivial=True)
     # --- block constancy for every T in 1..L (unit input, zero noise: y is the gain)
-    Ls = (7, 12) if quick else (5, 7, 12, 16, 30)
+    Ls = (7, 12) if quick else (5, 7, 12, 16, 30, 64, 100)
     for (kname, mk, comp, _) in kinds:
         for L in Ls:
             for T in range(1, L + 1):
